@@ -628,10 +628,12 @@ class Gen:
         return self.cond_depth == 0
 
     def gen_stmt(self, depth, level_qubits):
-        snap = (list(self.held), list(self.uregs), list(self.uregs_block))
+        snap = (list(self.held), list(self.uregs), list(self.uregs_block), list(self.regs), list(self.live),
+                self.nreg_block)
         s = self.gen_stmt_(depth, level_qubits)
         if s is None:
-            self.held, self.uregs, self.uregs_block = snap
+            # the statement was dropped: forget every handle it introduced
+            self.held, self.uregs, self.uregs_block, self.regs, self.live, self.nreg_block = snap
         return s
 
     def gen_stmt_(self, depth, level_qubits):
@@ -874,7 +876,10 @@ class Gen:
         x = self.pick_cval(allow_int=False)
         if x is None:
             return []
-        if not body:
+        emitting = ("newq", "gate", "rot", "cnot", "cphase", "measfut", "measnew", "measreg", "free", "futadd", "regadd")
+        if not any(s[0] in emitting for s in body):
+            # a loop_until whose body emits no command is dropped by the builder together with its
+            # cleanup (documented assumption `emits` of the composed theorem): always emit something
             f = self.pick_future()
             if f is None:
                 return []
